@@ -222,6 +222,7 @@ pub fn execute(base: &CrashBase, k: u64, stalls: &[(u64, u64)]) -> RunOutcome<Cr
     let matrix_texts: Vec<String> = base.matrices.iter().map(|m| serde_json::to_string(m).unwrap()).collect();
     let mut spec = base.spec.clone();
     spec.stalls = stalls.to_vec();
+    let watch_flags = crate::scen::flagwatch::has_flags(&base.matrices);
     run_sim(&spec, || {
         let readers: Vec<BufReader<&[u8]>> = matrix_texts.iter().map(|m| BufReader::new(m.as_bytes())).collect();
         let problem = match (BufReader::new(problem_text.as_bytes()), readers).read_pragmatic() {
@@ -233,6 +234,7 @@ pub fn execute(base: &CrashBase, k: u64, stalls: &[(u64, u64)]) -> RunOutcome<Cr
         };
         INSERTIONS.store(0, Ordering::SeqCst);
         ROUNDS.store(0, Ordering::SeqCst);
+        crate::scen::flagwatch::reset();
         let quota_dbg = std::env::var_os("VSIM_TRACE_AFTER_FLIP").is_some();
         let tracer = sys::monitor(|| {
             if std::env::var_os("VSIM_TRACE_INSERTIONS").is_some() {
@@ -246,6 +248,9 @@ pub fn execute(base: &CrashBase, k: u64, stalls: &[(u64, u64)]) -> RunOutcome<Cr
                     return;
                 }
             INSERTIONS.fetch_add(1, Ordering::SeqCst);
+            if watch_flags {
+                crate::scen::flagwatch::note(ctx);
+            }
             if let Some(t) = tracer.as_ref() {
                 t(ctx, site);
             }
@@ -398,7 +403,15 @@ fn judge(base: &CrashBase, model: &PModel, out: &RunOutcome<CrashOut>, what: &st
                         for i in found {
                             // a solution returned after an interruption must satisfy C01-C03: these are C07 violations
                             // (the structural tag of the failing site travels inside the message: "[C01#tag]")
-                            let tag = if i.tag.is_empty() { String::new() } else { format!("#{}", i.tag) };
+                            let mut tags: Vec<&str> = vec![];
+                            if !i.tag.is_empty() {
+                                tags.push(i.tag);
+                            }
+                            // the run of this execution drove a flagged leg with the vehicle of this tour (scen/flagwatch.rs)
+                            if crate::scen::flagwatch::seen() > 0 && crate::scen::flagwatch::is_time_or_distance_rule(i.rule) && crate::scen::flagwatch::concerns(&i.msg) {
+                                tags.push(crate::scen::flagwatch::TOKEN);
+                            }
+                            let tag = if tags.is_empty() { String::new() } else { format!("#{}", tags.join("|")) };
                             issues.push(("C07".into(), i.rule.to_string(), format!("{what}: [{}{tag}] {}", i.prop, i.msg)));
                         }
                         if let Some(g) = s.generations {
